@@ -23,6 +23,50 @@ def stale_cache_scenarios():
     return out
 
 
+def rekey_then_reinit_check():
+    """a handle that was re-keyed and is initialised again (init(), init(force=True)) must not teach the project a wrong state point for
+    its id: same-session queries, open-by-id and the persistent cache written afterwards stay exact"""
+    import gzip
+    import hashlib
+    import json
+    import os
+    import signac
+    from .common import dir_scratch
+    out = []
+    for route in ("setitem", "assign", "update_statepoint"):
+        for force in (False, True):
+            with dir_scratch() as d:
+                pp = os.path.join(d, "p")
+                os.makedirs(pp)
+                p = signac.init_project(pp)
+                j = p.open_job({"a": 1, "b": 0}).init()
+                p.open_job({"a": 5}).init()
+                j.statepoint()
+                if route == "setitem":
+                    j.sp.a = 2
+                elif route == "assign":
+                    j.statepoint = {"a": 2, "b": 0}
+                else:
+                    j.update_statepoint({"c": 3})
+                j.init(force=force)
+                new_sp = json.loads(json.dumps(j.statepoint()))
+                try:
+                    byid = json.loads(json.dumps(p.open_job(id=j.id).statepoint()))
+                    found = sorted(x.id for x in p.find_jobs(new_sp))
+                    p.update_cache()
+                    fn = os.path.join(pp, ".signac", "statepoint_cache.json.gz")
+                    disk = json.loads(gzip.open(fn, "rb").read().decode())
+                except Exception as e:
+                    out.append((f"reinit:{route}:{force}:raised", f"re-key ({route}) then init(force={force}): {type(e).__name__}: {str(e)[:200]}"))
+                    continue
+                ref = lambda v: hashlib.md5(json.dumps(v, sort_keys=True).encode()).hexdigest()
+                bad = [i for i, v in disk.items() if ref(v) != i]
+                if byid != new_sp or found != [j.id] or bad:
+                    out.append((f"reinit:{route}:{force}", f"re-key ({route}) then init(force={force}) through the same handle: open-by-id gives {byid} (the job's state point is {new_sp}), "
+                                                          f"find_jobs finds {len(found)} jobs, cache file entries that do not hash to their key: {bad}"))
+    return out
+
+
 def _stale_one(change, first):
     import gzip
     import json
@@ -73,6 +117,8 @@ def run(tier="quick", seed=0):
     r.update(scope="random histories (length 14 quick / 40 thorough) of {init, doc edit/reset, file, remove, clear/reset, re-key by 6 routes, move, clone, handle copy/deepcopy/pickle/reopen/drop, "
                    "update_cache/restart/delete cache} over 2 projects, 4 keys x 8 values; model equality, check(), listing==len==membership, no temp files, live handles follow -- after every step", rule=RULE)
     from .common import script_header
+    for key, msg in rekey_then_reinit_check():
+        r["failures"].append({"key": key, "description": msg, "script": script_header() + "sys.path.insert(0, '/verif')\nfrom pybound.c08 import rekey_then_reinit_check\nr = rekey_then_reinit_check()\nassert not r, r\n"})
     for key, msg in stale_cache_scenarios():
         r["failures"].append({"key": key, "description": msg, "script": script_header() + "sys.path.insert(0, '/verif')\nfrom pybound.c08 import stale_cache_scenarios\nr = stale_cache_scenarios()\nassert not r, r\n"})
     r["evaluations"] = r.get("evaluations", 0) + 16
